@@ -420,11 +420,11 @@ def run():
                      'operation kinds (x keys, x argument kinds) up to the depth bound, passive readers and == after every '
                      'step, eviction order and all lookups probed on a fresh replay for every new state; non-trivial = the '
                      'cache is non-empty or the history has >= 2 steps',
-                bounds=dict(quick='LRI+LRU x max_size 1..3 (keys = max_size+1 of a,b,c,d) x on_miss in {None, k*2}; depth 4 (max_size 1), '
-                                  '3 (max_size 2,3)',
-                            thorough='same configurations; depth 6 (max_size 1), 5 (max_size 2), 4 (max_size 3); '
+                bounds=dict(quick='LRI+LRU x max_size 1..3 (keys = first max_size+1 of a,b,c,d; values 1,2) x on_miss in {None, k*2}; all '
+                                  'histories up to depth 6 (max_size 1), 4 (max_size 2), 3 (max_size 3) over 28..49 operation instances',
+                            thorough='same configurations; depth 8 (max_size 1), 6 (max_size 2), 4 (max_size 3); '
                                      '+ 300 random histories of 24 steps from --seed'))
-    depth = {1: 7, 2: 5, 3: 4} if H.thorough else {1: 6, 2: 4, 3: 3}
+    depth = {1: 8, 2: 6, 3: 4} if H.thorough else {1: 6, 2: 4, 3: 3}
     configs = [(cn, ms, om) for ms in (1, 2, 3) for cn in ('LRI', 'LRU') for om in (False, True)]
     summary = {}
     for i, (cn, ms, om) in enumerate(configs):
